@@ -162,7 +162,7 @@ func (x *Xlat) stdlib(st *State, fr *Frame, out *Outcomes, ce *ast.CallExpr, rec
 		mt := types.Unalias(info.TypeOf(ce)).Underlying().(*types.Map)
 		r := x.allocRef(st, "mapclone", info.TypeOf(ce))
 		ks, vs := x.tm.SortOf(mt.Key()), x.tm.SortOf(mt.Elem())
-		dk, vk := mapDomKey(ks), mapValKey(ks, vs)
+		dk, vk := mapDomKey(ks, vs), mapValKey(ks, vs)
 		hd := x.get(st, dk, ArrSort(SRef, ArrSort(ks, SBool)))
 		hv := x.get(st, vk, ArrSort(SRef, ArrSort(ks, vs)))
 		hl := x.get(st, mapLenKey, ArrSort(SRef, SInt))
@@ -175,7 +175,7 @@ func (x *Xlat) stdlib(st *State, fr *Frame, out *Outcomes, ce *ast.CallExpr, rec
 		dst, src := arg(0), arg(1)
 		mt := types.Unalias(info.TypeOf(ce.Args[0])).Underlying().(*types.Map)
 		ks, vs := x.tm.SortOf(mt.Key()), x.tm.SortOf(mt.Elem())
-		dk, vk := mapDomKey(ks), mapValKey(ks, vs)
+		dk, vk := mapDomKey(ks, vs), mapValKey(ks, vs)
 		hd := x.get(st, dk, ArrSort(SRef, ArrSort(ks, SBool)))
 		hv := x.get(st, vk, ArrSort(SRef, ArrSort(ks, vs)))
 		hl := x.get(st, mapLenKey, ArrSort(SRef, SInt))
